@@ -161,11 +161,16 @@ std::vector<cld> gen_values(Rng &r, const Mat &M, int vc, int prec, const std::v
     int n = M.n;
     std::vector<cld> v(M.rowind.size());
     std::vector<ld> rs(n, 1), cs(n, 1);
+    bool exact_scale = false;
     if (vc == V_BADSCALE) {
         int mode = (int)r.below(3); // rows, cols, both
+        // a third of the badly scaled matrices is exactly representable: entries of modulus 1 times powers of two, exponent 0
+        // included, so that scale factors that are exactly 1.0 (and row/column maxima that are exactly 1.0) occur
+        exact_scale = r.chance(0.33);
+        static const int ex2[] = {-20, -10, -3, 0, 0, 3, 10, 20};
         for (int i = 0; i < n; ++i) {
-            if (mode != 1) rs[i] = powl(10.0L, (ld)r.range(-6, 6));
-            if (mode != 0) cs[i] = powl(10.0L, (ld)r.range(-6, 6));
+            if (mode != 1) rs[i] = exact_scale ? ldexpl(1.0L, ex2[r.below(8)]) : powl(10.0L, (ld)r.range(-6, 6));
+            if (mode != 0) cs[i] = exact_scale ? ldexpl(1.0L, ex2[r.below(8)]) : powl(10.0L, (ld)r.range(-6, 6));
         }
     }
     for (int j = 0; j < n; ++j) {
@@ -181,7 +186,10 @@ std::vector<cld> gen_values(Rng &r, const Mat &M, int vc, int prec, const std::v
             case V_GRADED: x = rand_unit(r, cpx) * powl(10.0L, (ld)(r.unit() * 8 - 4)); break;
             case V_SMALLINT: x = cld((ld)r.range(1, 4) * (r.chance(0.5) ? 1 : -1), cpx && r.chance(0.5) ? (ld)r.range(-3, 3) : 0); break;
             case V_PM1: x = cpx ? (r.chance(0.5) ? cld(r.chance(0.5) ? 1 : -1, 0) : cld(0, r.chance(0.5) ? 1 : -1)) : cld(r.chance(0.5) ? 1 : -1, 0); break;
-            case V_BADSCALE: x = rand_unit(r, cpx) * (ld)(0.1 + 0.9 * r.unit()) * rs[i] * cs[j]; break;
+            case V_BADSCALE:
+                if (exact_scale) x = (cpx ? (r.chance(0.5) ? cld(r.chance(0.5) ? 1 : -1, 0) : cld(0, r.chance(0.5) ? 1 : -1)) : cld(r.chance(0.5) ? 1 : -1, 0)) * (r.chance(0.3) ? 0.5L : 1.0L) * rs[i] * cs[j];
+                else x = rand_unit(r, cpx) * (ld)(0.1 + 0.9 * r.unit()) * rs[i] * cs[j];
+                break;
             }
             v[k] = x;
             if (transversal.size() == (size_t)n && transversal[j] == i) tpos = k; else colsum += absl_(x);
